@@ -80,16 +80,28 @@ func runProc(cfg, framesHex string) string {
 	if framesHex == "-" {
 		return "-"
 	}
+	reuse := len(framesHex)%2 == 0
+	ring := make([]byte, 1<<16)
 	for _, fh := range strings.Split(framesHex, ",") {
 		frame := hx.UnHex(fh)
-		// exact-capacity copy: slicing beyond len must panic as it would on a tight capture buffer
-		data := make([]byte, len(frame))
+		// exact-capacity slice: slicing beyond len must panic as it would on a tight capture buffer.
+		// Every second history re-uses ONE backing array for all its frames, as the zero-copy AF_PACKET
+		// ring does with its slots: a processor that keeps a slice into an earlier frame (gopacket's
+		// decoders are zero-copy) then sees that slice change under it.
+		var data []byte
+		if reuse {
+			data = ring[:len(frame):len(frame)]
+		} else {
+			data = make([]byte, len(frame))
+		}
 		copy(data, frame)
 		before := len(res.got)
 		var err error
 		panicked, _ := hx.Recover(func() { err = p.ProcessPacketData(data, &gopacket.CaptureInfo{}) })
-		for i := range data { // the capture ring reuses its memory for the next frame
-			data[i] = 0xEE
+		if !reuse {
+			for i := range data { // the memory of a frame does not outlive the call
+				data[i] = 0xEE
+			}
 		}
 		switch {
 		case panicked:
